@@ -509,6 +509,15 @@ class BaseName:
             cls_or_func_node = self._name.tree_name.get_definition()
             parent = cls_or_func_node.search_ancestor('funcdef', 'classdef', 'file_input')
             context = self._get_module_context().create_value(parent).as_context()
+        elif self._name.string_name == '<lambda>' and self._name.tree_name is None \
+                and self._name.start_pos is not None \
+                and self._get_module_context().tree_node is not None:
+            # Lambdas have no tree name, but like for functions the
+            # parent_context of a lambda in a class is not the class.
+            module_context = self._get_module_context()
+            leaf = module_context.tree_node.get_leaf_for_position(self._name.start_pos)
+            parent = leaf.search_ancestor('funcdef', 'classdef', 'file_input')
+            context = module_context.create_value(parent).as_context()
         else:
             context = self._name.parent_context
 
